@@ -55,6 +55,7 @@ pub fn int() -> BoxedStrategy<i64> {
         2 => 0i64..100_000,
         // numbers the library's own source mentions, and their neighbours
         1 => crate::engine::dict::int_token(0, i64::MAX as u64).prop_map(|n| n as i64),
+        1 => (crate::engine::gen::interesting_u64(i64::MAX as u64), any::<bool>()).prop_map(|(n, neg)| if neg { -(n as i64) } else { n as i64 }),
     ]
     .boxed()
 }
